@@ -1568,6 +1568,73 @@ def _retry_progress(P, r, root, hb, sb, S, ok_map):
         r.instance((root, "retry progress"), False, "not decided: %s" % e)
 
 
+# ---------------------------------------------------------------------------- counting vs forced completion (C03 / C11)
+# With several upstreams alive, `sink_complete(serial)` (leave, complete when the last one left) and `sink_complete_force()` (complete now)
+# are different operators.  Which one each input's completion uses is part of the definition C03 states:
+COMPLETE_KIND = {
+    # root: {input role: completion calls its complete-handler may make}
+    "operators::merge::Merge": {"*": {"sink_complete"}},                # completes only after all have completed
+    "operators::flat_map::FlatMap": {"*": {"sink_complete"}},           # outer and every inner
+    "operators::zip::Zip": {"*": {"sink_complete"}},                    # (this crate: when every input has completed)
+    "operators::take_until::TakeUntil": {"source": {"sink_complete_force"}, "trigger": set()},
+    "operators::skip_until::SkipUntil": {"source": {"sink_complete_force"}, "trigger": set()},
+    "operators::sample::Sample": {"source": {"sink_complete_force"}, "trigger": set()},
+    "operators::switch_on_next::SwitchOnNext": {"source": {"sink_complete"}, "trigger": {"sink_complete_force"}},
+    "operators::amb::Amb": {"*": {"sink_complete_force"}},              # the winner's completion ends the whole, losers stay registered
+}
+
+
+def complete_kind_rule(P, E, H):
+    r = RuleResult("COMPLETE-KIND", "operators with several live upstreams: each input's complete-handler uses the completion its definition "
+                                    "names - leave-and-count (sink_complete) or end-now (sink_complete_force)")
+
+    def kinds(hb, depth=0, seen=None):
+        seen = seen if seen is not None else set()
+        out = set()
+        if hb is None or hb.id in seen or depth > 3:
+            return out
+        seen.add(hb.id)
+        for c in hb.calls:
+            a = atom(c)
+            if a in ("sink_complete", "sink_complete_force"):
+                out.add(a)
+            for t in E.inline_targets(c):
+                out |= kinds(t, depth + 1, seen)
+        return out
+    for root, table in sorted(COMPLETE_KIND.items()):
+        ts = [t for t in H.triples if t["root"] == root]
+        if not ts:
+            r.error("COMPLETE-KIND: anchor missing: observers of %s" % root)
+            continue
+        if "*" not in table:
+            trig = [t for t in ts if H.is_trigger_triple(t)]
+            src = [t for t in ts if not H.is_trigger_triple(t)]
+            if len(trig) != 1 or len(src) != 1:
+                src = [t for t in ts if "arg" in (t.get("target") or "")]
+                trig = [t for t in ts if t not in src]
+            if len(trig) != 1 or len(src) != 1:
+                r.error("COMPLETE-KIND: %s: expected one source and one trigger observer, found %d/%d" % (root, len(src), len(trig)))
+                continue
+            roles = [("source", src[0]), ("trigger", trig[0])]
+        else:
+            roles = [("*", t) for t in ts]
+        for role, t in roles:
+            hb = t["handlers"].get("C")
+            if hb is None:
+                r.error("COMPLETE-KIND: complete handler of %s is not a closure" % root)
+                continue
+            got, want = kinds(hb), table[role]
+            r.instance((root, "completion kind", role if role != "*" else "input"), True, "uses %s" % sorted(got))
+            if got - want:
+                bad = sorted(got - want)[0]
+                r.violate((root, "completion kind", role if role != "*" else "input", bad),
+                          "%s: the complete-handler of %s calls %s; with its other upstream(s) still alive that %s - the definition says %s"
+                          % (root.split("::")[-1], {"*": "an input", "source": "the source", "trigger": "the trigger / target"}[role], bad,
+                             "ends the whole stream at once" if bad == "sink_complete_force" else "only leaves and waits for the others",
+                             " / ".join(sorted(want)) or "nothing (it neither ends nor holds up the stream)"), body=hb)
+    return r
+
+
 # ---------------------------------------------------------------------------- concat (C03)
 def concat_rule(P, E, H):
     """concat plays its inputs strictly one after another: when the current one completes, the next is taken from the FRONT of
@@ -1617,6 +1684,23 @@ def concat_rule(P, E, H):
             r.instance((H.stable_name(b), "next input"), True, "%d guarded paths over queue lengths 0..3" % n)
         except Undecided as e:
             r.error("CONCAT: not decidable in the abstraction: %s" % e)
+    # the queue starts as the inputs in the order given (front = the first `other`): the chain from the operator's vector of inputs
+    # to the queue keeps the order
+    import rules_arity as RAR
+    A = RAR.Arity(P, E)
+    for c in E.sites["create"]:
+        cl = c.arg_closure(0)
+        sb = P.bodies.get(cl) if cl else None
+        if sb is None or H.type_root(P.bodies.get(sb.root) or sb) != root:
+            continue
+        for k in sb.calls:
+            dt = (k.dest_t or {}).get("s", "") if isinstance(k.dest_t, dict) else ""
+            if (k.path in RAR.COLLECT or k.path in ("std::convert::From::from", "std::convert::Into::into")) and k.args and \
+                    ("VecDeque<observable::Observable" in dt or "Vec<observable::Observable" in dt):
+                rev = A.reversed_chain(sb, k.args[0])
+                r.instance((root, "queue order"), rev is not None, "queue filled %s" % {None: "in an order not decided", False: "front to back", True: "back to front"}[rev])
+                if rev:
+                    r.violate((root, "queue order", "reversed"), "concat: the queue of pending inputs is filled back to front: the inputs play in reverse order", body=sb, line=k.line)
     return r
 
 
